@@ -104,7 +104,7 @@ def main(run):
         grid += [('same', {'name': 'aes_gcm', 'key_bits': 192}, False), ('mixed', None, False), ('mixed', {'name': 'chacha20_poly1305'}, True), ('clone', None, False)]
     total = 0
     for i, (g, cipher, cache) in enumerate(grid):
-        for seed in range(run.seed * 10 + i, run.seed * 10 + i + (1 if quick else 3)):
+        for seed in range(run.seed * 10 + i, run.seed * 10 + i + 1):
             t, n = one_repo(run, g, seed, quick, cipher, cache)
             traces.append(t)
             total += n
